@@ -167,11 +167,18 @@ def run_gc_job(mod, U, L):
         c.cleared = True
         return []
 
+    def h_retain(ex, st, callee, args):
+        # retain keeps whatever its closure accepts: the cache is NOT known to be empty afterwards (every surviving key is an id of the old table)
+        c = ex.deref(args[0])
+        if not isinstance(c, Cache): raise symex.Unsupported('retain on %r' % (c,))
+        c.cleared = False
+        return []
+
     def h_default_map(ex, st, callee, args): return Cache('remap')
     def h_default_set(ex, st, callee, args): return Opaque('marked-set')
     def h_with_cap(ex, st, callee, args): return NewTable()
     def h_mark(ex, st, callee, args): return []
-    hooks = [(r'^UniqueTable::len$|^HashMap::<.*>::len$|^HashSet::<.*>::len$', h_len), (r'^HashMap::<.*>::clear$', h_clear),
+    hooks = [(r'^UniqueTable::len$|^HashMap::<.*>::len$|^HashSet::<.*>::len$', h_len), (r'^HashMap::<.*>::clear$', h_clear), (r'^HashMap::<.*>::retain::<.*>$', h_retain),
              (r'^<HashMap<u32, ZddRef, FxBuildHasher> as Default>::default$', h_default_map), (r'^<HashSet<.*> as Default>::default$', h_default_set),
              (r'^UniqueTable::with_capacity$', h_with_cap), (r'^ZddArena::mark_reachable$', h_mark)]
     specs = {'union': lambda a, b: a | b, 'intersection': lambda a, b: a & b, 'difference': lambda a, b: a & ~b, 'count': lambda a: U.card(a), 'remap': lambda a: a}
